@@ -10,6 +10,8 @@ pub mod c09;
 pub mod c10;
 pub mod c11;
 pub mod c12;
+pub mod c13;
+pub mod c14;
 
 use crate::evidence::Ev;
 use crate::ledger::{self, GTx, GenCfg, Kind, Ledger};
